@@ -2,6 +2,7 @@ import Driver.PM
 import Driver.Expose
 import Driver.Ports
 import Driver.Outline
+import Driver.Comms
 
 /-- `pmodel <component>`: line-protocol driver over the executable model definitions. -/
 def main (args : List String) : IO UInt32 := do
@@ -10,4 +11,5 @@ def main (args : List String) : IO UInt32 := do
   | ["expose"] => DrvExpose.main; return 0
   | ["ports"] => DrvPorts.main; return 0
   | ["outline"] => DrvOutline.main; return 0
+  | ["comms"] => DrvComms.main; return 0
   | _ => IO.eprintln "usage: pmodel <pm|expose|ports>"; return 2
